@@ -11,6 +11,7 @@ From UV.Gen Require Import Tables.
 From UV.Py Require Import PyStr.
 From UV.Vers Require Import Model.
 From UV.Schemes Require Import Common Generic LegacyOpenssl Gentoo GentooProofs Debian DebianProofs Semver SemverProofs Gem GemProofs Rpm RpmProofs Arch ArchProofs Openssl.
+From UV.Schemes Require Import Nuget Conan NugetConanProofs.
 From UV.Schemes Require Import Pypi Maven.
 Import ListNotations.
 
@@ -61,6 +62,11 @@ Theorem C02_pypi_and_maven : forall a b c d,
   ops_agree (pypi_ops a b) = true /\ ops_agree (maven_ops c d) = true.
 Proof. intros a b c d. split; [apply pypi_ops_spec|apply maven_ops_spec]. Qed.
 
+Theorem C02_nuget_and_conan : forall a b c d,
+  (nuget_ops a b = ops_of (nuget_cmp a b) /\ ops_agree (nuget_ops a b) = true) /\
+  (conan_ops c d = ops_of (conan_cmp c d) /\ ops_agree (conan_ops c d) = true).
+Proof. intros a b c d. split; [apply nuget_ops_spec|apply conan_ops_spec]. Qed.
+
 Print Assumptions C02_operators_of_a_comparison_agree.
 Print Assumptions C02_single_comparator_constraints.
 Print Assumptions C02_generic.
@@ -73,3 +79,4 @@ Print Assumptions C02_rpm.
 Print Assumptions C02_alpm.
 Print Assumptions C02_openssl.
 Print Assumptions C02_pypi_and_maven.
+Print Assumptions C02_nuget_and_conan.
